@@ -211,6 +211,22 @@ func c04Sessions() []c04Session {
 				Segs: [][]byte{pgproto.Startup("user", "u"), pgproto.Parse("s", q, types...), pgproto.Describe('S', "s"), pgproto.Sync(), pgproto.Parse("", q, types...), pgproto.Sync(), pgproto.Query(progRows)}})
 		}
 	}
+	// the byte that selects the target of a Close / Describe message: every value, known or not
+	for b := 0; b < 256; b++ {
+		for _, t := range []byte{'C', 'D'} {
+			out = append(out, c04Session{Name: fmt.Sprintf("%c message with target byte 0x%02x", t, b), NoPrefix: true,
+				Segs: [][]byte{pgproto.Startup("user", "u"), pgproto.Parse("s", progRows), pgproto.Msg(t, pgproto.Cat([]byte{byte(b)}, pgproto.CStr("s"))), pgproto.Sync(), pgproto.Query(progRows)}})
+		}
+	}
+	// Bind messages whose count words declare 32767 .. 65535 items, followed by none / two of them
+	for field := 0; field < 3; field++ {
+		for _, count := range []int{32767, 32768, 40000, 65535} {
+			for _, items := range []int{0, 2} {
+				out = append(out, c04Session{Name: fmt.Sprintf("bind count word %d declares %d items, %d follow", field, count, items), NoPrefix: true,
+					Segs: [][]byte{pgproto.Startup("user", "u"), pgproto.Parse("s", "select $1, $2, $3"), c03WideBind(field, count, items), pgproto.Execute("p", 0), pgproto.Sync(), pgproto.Query(progRows)}})
+			}
+		}
+	}
 	bodies := c04Bodies()
 	starts := []struct {
 		n    string
